@@ -20,9 +20,14 @@ class Divergence(Exception):
 
 
 class Execution:
-    def __init__(self, bodies, schedule, files, horizon=400000, expect=None):
+    def __init__(self, bodies, schedule, files, horizon=400000, expect=None, shared=()):
         """bodies: list of callables; schedule: {index: alt}; files: set of basenames (under fastparquet/)
-        expect: optional (index, digest) - trace digest the replay must have reached at `index`"""
+        expect: optional (index, digest) - trace digest the replay must have reached at `index`
+        shared: objects shared by the threads; a point is a *focus* point when it lies in a frame that received
+        one of them as an argument (the frames that can touch the shared state directly)"""
+        self.shared = {id(o) for o in shared}
+        self._keep = list(shared)
+        self.focus = []
         self.bodies = bodies
         self.n = len(bodies)
         self.schedule = dict(schedule)
@@ -42,9 +47,10 @@ class Execution:
         self.digests = {}
 
     # ------------------------------------------------------------------
-    def _decide(self, tid, running_enabled, label):
+    def _decide(self, tid, running_enabled, label, focus=0):
         i = self.npoints
         self.npoints += 1
+        self.focus.append(focus)
         if self.expect is not None and i == self.expect[0]:
             if self._h.hexdigest() != self.expect[1]:
                 self.error = "replay diverged before point %d" % i
@@ -71,9 +77,9 @@ class Execution:
     def digest_at(self):
         return self._h.hexdigest()
 
-    def _point(self, tid, frame):
+    def _point(self, tid, frame, focus=0):
         fn = frame.f_code.co_filename
-        nxt = self._decide(tid, True, (tid, fn[fn.rfind("/") + 1:], frame.f_lineno))
+        nxt = self._decide(tid, True, (tid, fn[fn.rfind("/") + 1:], frame.f_lineno), focus)
         # remember the digest *before* this point for children that deviate here
         if nxt != tid:
             self.sems[nxt].release()
@@ -82,15 +88,25 @@ class Execution:
     def _make_tracer(self, tid):
         files = self.files
 
+        shared = self.shared
+
         def local(frame, event, arg):
             if event == "line":
                 self._point(tid, frame)
             return local
 
+        def local_focus(frame, event, arg):
+            if event == "line":
+                self._point(tid, frame, 1)
+            return local_focus
+
         def tracer(frame, event, arg):
             if event == "call":
                 fn = frame.f_code.co_filename
                 if "fastparquet" in fn and fn[fn.rfind("/") + 1:] in files:
+                    # at the call event the frame's locals are exactly its arguments
+                    if shared and any(id(v) in shared for v in frame.f_locals.values()):
+                        return local_focus
                     return local
             return None
         return tracer
